@@ -34,6 +34,9 @@ def seeded_table():
         for p, cc in sorted(r.items()):
             v = {1: "**caught**", 0: "MISSED", 2: "inconclusive"}.get(cc.get("rc"), "not run")
             verdicts.append("%s: %s" % (p, v))
+        if meta.get("status", "").startswith("no longer manifests"):
+            rows.append("| `seeded/%s` | %s | %s | %s | — |" % (sid, prop, esc((meta.get("breaks") or "")[:200]), "*" + esc(meta["status"][:200]) + "* (not counted)"))
+            continue
         n += 1
         if c and c.get("rc") == 1:
             caught += 1
